@@ -345,26 +345,71 @@ def run_case(ib, rec, case, rng_mod):
     elif case["donor_mode"] == "donor_zero":
         nd_rep, nd_pts = make_profile(0.0, 0.0)
     nel_rep, nel_pts = make_profile(1e-4 * base, 1e-2 * base)
-    # species for the neutrality variant: arrays (n_states, *shape) or dicts {charge: array}
+    # species for the neutrality variant: arrays (n_states, *shape) or dicts {charge: profile}.  The model indexes by
+    # charge; the dictionaries are handed over in descending / random / ascending key order, with int / numpy-integer /
+    # mixed keys, hand-made or taken from the package's own from_elementdensity / interpolators output and re-ordered.
+    def reorder(d):
+        keys = sorted(d)
+        mode = rng.choice(["desc", "random", "random", "asc"])
+        if mode == "desc":
+            keys.reverse()
+        elif mode == "random":
+            rng.shuffle(keys)
+            if keys == sorted(keys) and len(keys) > 1:
+                keys.reverse()
+        keytype = rng.choice(["int", "npint", "mixed"])
+
+        def conv(i, k):
+            if keytype == "npint" or (keytype == "mixed" and i % 2 == 0):
+                return np.int64(k)
+            return int(k)
+        case.setdefault("species_orders", []).append(mode + "/" + keytype)
+        return {conv(i, k): d[k] for i, k in enumerate(keys)}
+
+    own_kw = {}
+    if free_variable is not None and rep not in ("interp1d", "interp2d", "eqmap"):
+        own_kw["free_variable"] = free_variable if not isinstance(free_variable, tuple) else (free_variable[0].copy(), free_variable[1].copy())
     species_reps, species_pts = [], []
     nsp = max(case["n_species"], 1 if case["infeasible"] else 0)
     for s in range(nsp):
         zs = rng.randint(1, 6)
         amp = (2.0 if case["infeasible"] else 0.2) * base / (nsp * zs)
+        source = rng.choice(["hand", "hand", "own"])
+        if source == "own":
+            h = amp * (zs + 1) / 2.0
+            nel2_rep, _ = make_profile(0.1 * h, h)
+            if rep in ("interp1d", "eqmap"):
+                d = ib.interpolators1d_from_elementdensity(ad, element(zs), fv.copy(), nel2_rep, ne_rep, te_rep)
+                pts_s = [[float(d[c](float(x))) for x in fv] for c in range(zs + 1)]
+            elif rep == "interp2d":
+                d = ib.interpolators2d_from_elementdensity(ad, element(zs), (free_variable[0].copy(), free_variable[1].copy()),
+                                                           nel2_rep, ne_rep, te_rep)
+                pts_s = [[float(d[c](float(x), float(y))) for x in free_variable[0] for y in free_variable[1]] for c in range(zs + 1)]
+            else:
+                d = ib.from_elementdensity(ad, element(zs), nel2_rep, ne_rep, te_rep, **own_kw)
+                pts_s = [[float(v) for v in np.asarray(d[c]).reshape(-1)] for c in range(zs + 1)]
+            case.setdefault("species_sources", []).append("own-output")
+            species_reps.append(reorder(dict(d)))
+            species_pts.append(pts_s)
+            continue
+        case.setdefault("species_sources", []).append("hand-made")
         arr = np.array([[quant(rnd(0, amp)) for _ in range(npts)] for _ in range(zs + 1)]).reshape((zs + 1,) + tuple(shape))
         if rep in ("fun1d", "interp1d", "eqmap") and rng.random() < 0.5 and len(fv) >= 2:
             d = {c: _lin1d(arr[c], fv) for c in range(zs + 1)}
-            species_reps.append(d)
+            species_reps.append(reorder(d))
             species_pts.append([[float(d[c](float(x))) for x in fv] for c in range(zs + 1)])
         else:
             if case["species_container"] == "dict" or rep in ("scalar", "fun1d_scalar"):
                 if rep in ("scalar", "fun1d_scalar"):
-                    species_reps.append({c: np.array([float(arr[c].flat[0])]) for c in range(zs + 1)})
+                    species_reps.append(reorder({c: np.array([float(arr[c].flat[0])]) for c in range(zs + 1)}))
                 else:
-                    species_reps.append({c: arr[c].copy() for c in range(zs + 1)})
+                    species_reps.append(reorder({c: arr[c].copy() for c in range(zs + 1)}))
             else:
+                case.setdefault("species_orders", []).append("ndarray")
                 species_reps.append(arr.copy())
             species_pts.append([[float(v) for v in arr[c].flat] for c in range(zs + 1)])
+    if rng.random() < 0.5:
+        species_reps = tuple(species_reps)        # the container of species: list or tuple
 
     points = []
     for k in range(npts):
@@ -376,6 +421,8 @@ def run_case(ib, rec, case, rng_mod):
     kw = {}
     if free_variable is not None and rep not in ("interp1d", "interp2d", "eqmap"):
         kw["free_variable"] = free_variable if not isinstance(free_variable, tuple) else (free_variable[0].copy(), free_variable[1].copy())
+        if isinstance(free_variable, tuple) and rng.random() < 0.5:
+            kw["free_variable"] = list(kw["free_variable"])      # list or tuple of coordinate arrays
     donor_args = (donor_el, nd_rep, donor_charge)
 
     def flat(dct):
@@ -437,7 +484,8 @@ def run_case(ib, rec, case, rng_mod):
         itp = ib.interpolators2d_match_plasma_neutrality(ad, el, (fx.copy(), fy.copy()), species_reps, ne_rep, te_rep, *donor_args)
         add("neut", "interpolators2d_match_plasma_neutrality@knots",
             [[float(itp[c](x, y)) for c in range(z + 1)] for x, y in grid], species=sp_list)
-        mp = ib.abundance_axisymmetric_mapper(ib.interpolators2d_fractional(ad, el, (fx.copy(), fy.copy()), ne_rep, te_rep, *donor_args))
+        itp = ib.interpolators2d_fractional(ad, el, (fx.copy(), fy.copy()), ne_rep, te_rep, *donor_args)
+        mp = ib.abundance_axisymmetric_mapper(dict(reversed(list(itp.items()))))      # keys in descending order
         add("frac", "abundance_axisymmetric_mapper(interpolators2d_fractional)@knots",
             [[float(mp[c](x * 0.6, x * 0.8, y)) for c in range(z + 1)] for x, y in grid])
     elif rep == "eqmap":
